@@ -56,10 +56,11 @@ def make(kind, st):
         st["runs"] += 1
         raise VErr(7)
 
+    # every other history builds the lazy future through the public decorator asynq.lazy(fn)(...) instead of Future(provider)
     if kind == "fut_ok":
-        return Future(prov_ok)
+        return asynq.lazy(prov_ok)() if st.get("alt") else Future(prov_ok)
     if kind == "fut_raise":
-        return Future(prov_raise)
+        return asynq.lazy(prov_raise)() if st.get("alt") else Future(prov_raise)
     if kind == "const":
         return ConstFuture(5)
     if kind == "error":
@@ -113,7 +114,7 @@ def encv(kind, v):
 
 def run_history(kind, ops):
     asynq.scheduler.reset()
-    st = {"runs": 0}
+    st = {"runs": 0, "alt": len(ops) % 2 == 1 or sum(len(o.get("op", "")) for o in ops) % 2 == 1}
     obj = make(kind, st)
     notes = []
     got = []
